@@ -1358,7 +1358,7 @@ class Date(_pre.Pregex):
         date_formats = __class__.__date_formats()
         formats = date_formats if formats is None else formats
 
-        if isinstance(formats, str):
+        if not isinstance(formats, list):
             formats = [formats]
         
         dates: list[_pre.Pregex] = []
